@@ -11,6 +11,7 @@ import (
 	"regexp"
 	"sort"
 	"strings"
+	"unicode"
 )
 
 func init() { register("C15", checkC15) }
@@ -114,6 +115,11 @@ func checkC15(c *Ctx) {
 	} else {
 		operandsKept(c, m01, "C15.O6")
 	}
+
+	// ---- O7: a prefix may be renamed to any name the compact-IRI grammar admits. A name check in the prefix parser that is
+	// stricter than the grammar (letters and digits only, no hyphen, no leading digit) turns a consistent renaming into an error.
+	r.Rule("C15.O7", "prefix names are not validated more strictly than the compact-IRI grammar admits", 1)
+	c15PrefixNames(c)
 
 	// ---- O5: quoting, escapes and block styles are decoded by yaml.v3; that only holds when yaml.v3 sees the profile text
 	// itself. Editing the text first (expanding tabs, trimming, replacing) changes scalars written with one quoting style and
@@ -384,12 +390,15 @@ func guardedBySequenceKindNode(info *types.Info, fd *ast.FuncDecl, loop ast.Node
 }
 
 // c15Prefixes: rule O3.
-func c15Prefixes(c *Ctx) {
+func c15Prefixes(c *Ctx) { prefixResolution(c, "C15.O3") }
+
+// prefixResolution: how a compact IRI is resolved depends on the profile alone (shared by C15.O3 and C02.P9).
+func prefixResolution(c *Ctx, rid string) {
 	r, p := c.R, c.P
 	misc := p.Pkg("internal/misc")
 	ctxPk := p.Pkg("internal/validator/contexts")
 	if misc == nil || ctxPk == nil {
-		r.Unknown("C15.O3", "anchors", "", "packages internal/misc or internal/validator/contexts not found")
+		r.Unknown(rid, "anchors", "", "packages internal/misc or internal/validator/contexts not found")
 		return
 	}
 	// the expander type: the named struct in internal/misc that has a method returning (string, error) and a map field
@@ -406,7 +415,7 @@ func c15Prefixes(c *Ctx) {
 		}
 	}
 	if expander == nil {
-		r.Unknown("C15.O3", "expander", "", "the IRI expander type was not found in internal/misc")
+		r.Unknown(rid, "expander", "", "the IRI expander type was not found in internal/misc")
 		return
 	}
 	// default prefix table: the package-level map of string constants in contexts
@@ -436,7 +445,7 @@ func c15Prefixes(c *Ctx) {
 	}
 	r.Analysed["default_prefixes"] = len(defaults)
 	if len(defaults) < 5 || defaultVar == nil {
-		r.Unknown("C15.O3", "default-context", "", "the default prefix table was not found")
+		r.Unknown(rid, "default-context", "", "the default prefix table was not found")
 		return
 	}
 
@@ -466,7 +475,7 @@ func c15Prefixes(c *Ctx) {
 					ctxExpr := compositeField(cl, "Context")
 					id, _ := ast.Unparen(ctxExpr).(*ast.Ident)
 					if id == nil {
-						r.Bad("C15.O3", k, p.Pos(cl.Pos()), "the expander's context is not a local map built from the defaults and the profile's prefixes")
+						r.Bad(rid, k, p.Pos(cl.Pos()), "the expander's context is not a local map built from the defaults and the profile's prefixes")
 						return true
 					}
 					ctxObj := info.Uses[id]
@@ -527,15 +536,15 @@ func c15Prefixes(c *Ctx) {
 					})
 					switch {
 					case aliasDefault:
-						r.Bad("C15.O3", k, p.Pos(cl.Pos()), "the expander's context aliases the shared default prefix table instead of copying it")
+						r.Bad(rid, k, p.Pos(cl.Pos()), "the expander's context aliases the shared default prefix table instead of copying it")
 					case defaultsAt == token.NoPos:
-						r.Bad("C15.O3", k, p.Pos(cl.Pos()), "the default prefixes are not merged into the expander's context")
+						r.Bad(rid, k, p.Pos(cl.Pos()), "the default prefixes are not merged into the expander's context")
 					case prefixesAt == token.NoPos:
-						r.Bad("C15.O3", k, p.Pos(cl.Pos()), "the profile's prefixes are not written into the expander's context")
+						r.Bad(rid, k, p.Pos(cl.Pos()), "the profile's prefixes are not written into the expander's context")
 					case prefixesAt < defaultsAt:
-						r.Bad("C15.O3", k, p.Pos(cl.Pos()), "the profile's prefixes are written before the defaults, so a default overrides the profile's binding of the same prefix")
+						r.Bad(rid, k, p.Pos(cl.Pos()), "the profile's prefixes are written before the defaults, so a default overrides the profile's binding of the same prefix")
 					default:
-						r.OK("C15.O3", k, p.Pos(cl.Pos()), "context = copy of the defaults, then the profile's prefixes on top")
+						r.OK(rid, k, p.Pos(cl.Pos()), "context = copy of the defaults, then the profile's prefixes on top")
 					}
 					return true
 				})
@@ -543,15 +552,15 @@ func c15Prefixes(c *Ctx) {
 		}
 	}
 	if constructors == 0 {
-		r.Unknown("C15.O3", "expander-constructor", "", "no construction of the IRI expander found outside tests")
+		r.Unknown(rid, "expander-constructor", "", "no construction of the IRI expander found outside tests")
 	}
 
 	// (b) no hard-coded `prefix.` strings used in comparisons / prefix tests
 	uses := prefixLiteralUses(p, defaults, ctxPk)
 	for _, u := range uses {
-		r.Bad("C15.O3", u.key, p.Pos(u.pos), fmt.Sprintf("the prefix name %q is hard-coded in %s: behaviour depends on how the profile spells a prefix instead of on the namespace it is bound to", u.lit, u.where))
+		r.Bad(rid, u.key, p.Pos(u.pos), fmt.Sprintf("the prefix name %q is hard-coded in %s: behaviour depends on how the profile spells a prefix instead of on the namespace it is bound to", u.lit, u.where))
 	}
-	r.OK("C15.O3", "hard-coded-prefix-census", "", fmt.Sprintf("%d default prefix names; %d uses of a hard-coded `prefix.` literal in comparisons or prefix tests", len(defaults), len(uses)))
+	r.OK(rid, "hard-coded-prefix-census", "", fmt.Sprintf("%d default prefix names; %d uses of a hard-coded `prefix.` literal in comparisons or prefix tests", len(defaults), len(uses)))
 
 	// (c) the expander resolves the prefix through its context only
 	for i := 0; i < expander.NumMethods(); i++ {
@@ -581,7 +590,7 @@ func c15Prefixes(c *Ctx) {
 			return true
 		})
 		if indexes {
-			r.Check(!other, "C15.O3", "internal/misc."+expander.Obj().Name()+"."+m.Name()+"#lookup", p.Pos(fd.Pos()), "the prefix is looked up in the expander's own context", "the expander consults the shared default table directly, bypassing the profile's bindings")
+			r.Check(!other, rid, "internal/misc."+expander.Obj().Name()+"."+m.Name()+"#lookup", p.Pos(fd.Pos()), "the prefix is looked up in the expander's own context", "the expander consults the shared default table directly, bypassing the profile's bindings")
 		}
 	}
 }
@@ -791,4 +800,191 @@ func derivesFromParam(v ssa.Value, depth int) bool {
 		return derivesFromParam(x.Tuple, depth+1)
 	}
 	return false
+}
+
+// textChain lists (function, parameter) pairs through which a text reaches prm of fn from the functions nobody in the
+// module calls: the parameter itself and, transitively, the callers' parameters that are passed on to it.
+type textParam struct {
+	fn  *ssa.Function
+	prm *ssa.Parameter
+}
+
+func textChain(p *Prog, fn *ssa.Function, prm *ssa.Parameter, seen map[*ssa.Parameter]bool) []textParam {
+	if seen[prm] {
+		return nil
+	}
+	seen[prm] = true
+	out := []textParam{{fn, prm}}
+	idx := -1
+	for i, q := range fn.Params {
+		if q == prm {
+			idx = i
+		}
+	}
+	if idx < 0 {
+		return out
+	}
+	for _, caller := range p.ModuleFuncs() {
+		fname := p.Fset.Position(caller.Pos()).Filename
+		if strings.HasSuffix(fname, "_test.go") || strings.HasSuffix(fname, "test_utils.go") {
+			continue
+		}
+		for _, b := range caller.Blocks {
+			for _, ins := range b.Instrs {
+				ci, ok := ins.(ssa.CallInstruction)
+				if !ok || ci.Common().StaticCallee() != fn || idx >= len(ci.Common().Args) {
+					continue
+				}
+				origin := ci.Common().Args[idx]
+				for {
+					if cv, ok := origin.(*ssa.Convert); ok {
+						origin = cv.X
+						continue
+					}
+					break
+				}
+				if q, ok := origin.(*ssa.Parameter); ok {
+					out = append(out, textChain(p, caller, q, seen)...)
+				}
+			}
+		}
+	}
+	return out
+}
+
+// otherUsesOfText: uses of the text parameter (and of its string/[]byte conversions) other than handing it to one of the
+// allowed callees. allowed decides by the static callee and argument position.
+func otherUsesOfText(prm *ssa.Parameter, allowed func(ci ssa.CallInstruction, argIdx int) bool) []ssa.Instruction {
+	var bad []ssa.Instruction
+	var visit func(v ssa.Value, depth int)
+	visit = func(v ssa.Value, depth int) {
+		if depth > 3 {
+			return
+		}
+		for _, ref := range nonDebugRefs(v) {
+			switch x := ref.(type) {
+			case *ssa.Convert:
+				visit(x, depth+1)
+			case *ssa.ChangeType:
+				visit(x, depth+1)
+			case *ssa.MakeInterface:
+				visit(x, depth+1)
+			case ssa.CallInstruction:
+				ok := false
+				for i, a := range x.Common().Args {
+					if a == v && allowed(x, i) {
+						ok = true
+					}
+				}
+				if !ok {
+					bad = append(bad, ref)
+				}
+			case *ssa.MakeClosure:
+				bad = append(bad, ref)
+			default:
+				bad = append(bad, ref)
+			}
+		}
+	}
+	visit(prm, 0)
+	return bad
+}
+
+func c15PrefixNames(c *Ctx) {
+	r, p := c.R, c.P
+	g, err := loadPegGrammar(p, "internal/parser/path")
+	if err != nil {
+		r.Unknown("C15.O7", "grammar", "", err.Error())
+		return
+	}
+	var nsCls *pegExpr
+	for _, rl := range g.Rules {
+		seq := rl.Expr.strip()
+		if seq.Kind != "seq" {
+			continue
+		}
+		for i := 0; i+2 < len(seq.Kids); i++ {
+			a, dot, b := seq.Kids[i].strip(), seq.Kids[i+1].strip(), seq.Kids[i+2].strip()
+			if a.Kind == "plus" && b.Kind == "plus" && dot.Kind == "lit" && dot.Val == "." && a.Kids[0].strip().Kind == "class" && b.Kids[0].strip().Kind == "class" {
+				nsCls = a.Kids[0].strip()
+			}
+		}
+	}
+	if nsCls == nil {
+		r.Unknown("C15.O7", "iri-rule", "", "the grammar rule for compact IRIs was not found")
+		return
+	}
+	chars, ok := classRunes(nsCls)
+	if !ok {
+		r.Unknown("C15.O7", "iri-prefix-class", "", "unbounded grammar class")
+		return
+	}
+	// the prefix parser: functions of the profile package that return the prefix table (a map from string to string) built
+	// from a YAML node, and what they call in their own package
+	var roots []*ssa.Function
+	for _, fn := range p.ModuleFuncs() {
+		if RelPkg(fn) != "internal/parser/profile" || fn.Signature.Results().Len() < 1 || fn.Parent() != nil {
+			continue
+		}
+		m, ok := fn.Signature.Results().At(0).Type().Underlying().(*types.Map)
+		if !ok || !isStringType(m.Key()) || !isStringType(m.Elem()) {
+			continue
+		}
+		roots = append(roots, fn)
+	}
+	if len(roots) == 0 {
+		r.Unknown("C15.O7", "prefix-parser", "", "no function returning a prefix table found in the profile parser")
+		return
+	}
+	n := 0
+	for _, root := range roots {
+		for _, fn := range samePkgReach(p, root) {
+			for _, b := range fn.Blocks {
+				for _, ins := range b.Instrs {
+					call, ok := ins.(*ssa.Call)
+					if !ok {
+						continue
+					}
+					name := funcFullName(ssaCalleeObj(call))
+					var pat string
+					var okPat bool
+					switch name {
+					case "(*regexp.Regexp).MatchString", "(*regexp.Regexp).Match", "(*regexp.Regexp).FindString", "(*regexp.Regexp).FindStringSubmatch":
+						pat, okPat = regexpPatternOf(call.Call.Args[0])
+					case "regexp.MatchString":
+						pat, okPat = constStringOf(call.Call.Args[0])
+					default:
+						continue
+					}
+					n++
+					k := FuncKey(fn) + "#name-pattern"
+					if !okPat {
+						r.Unknown("C15.O7", k, p.Pos(ins.Pos()), "a regular expression is applied in the prefix parser but its pattern is not a constant")
+						continue
+					}
+					re, err := regexp.Compile(pat)
+					if err != nil {
+						r.Unknown("C15.O7", k, p.Pos(ins.Pos()), "the pattern does not compile: "+err.Error())
+						continue
+					}
+					var rejected []rune
+					for _, ch := range chars {
+						if unicode.IsSpace(ch) {
+							continue
+						}
+						for _, sample := range []string{string(ch), "a" + string(ch), string(ch) + "a"} {
+							if !re.MatchString(sample) {
+								rejected = append(rejected, ch)
+								break
+							}
+						}
+					}
+					r.Check(len(rejected) == 0, "C15.O7", k, p.Pos(ins.Pos()), "the name check admits every prefix name the grammar admits", fmt.Sprintf("the prefix parser checks names against %q, which rejects names the compact-IRI grammar admits (characters %s, alone, first or last): the same profile with its prefix consistently renamed to such a name is an error instead of the same report", pat, quoteRunes(rejected)))
+				}
+			}
+		}
+	}
+	if n == 0 {
+		r.OK("C15.O7", "census", "", fmt.Sprintf("%d prefix-table function(s): no pattern is applied to prefix names", len(roots)))
+	}
 }
